@@ -351,6 +351,8 @@ def _grid(case, ctx, obj, model, desc, pts, scale, feats):
     ns = steps[-1][1]
     fr = [(F(1, 4), F(3, 4)), (F(1, 8), F(5, 8)), (F(3, 8), F(7, 8))]
     sub = [(float(lo + (hi - lo) * a), float(lo + (hi - lo) * b)) for (lo, hi), (a, b) in zip(doms, fr)]
+    # where 0.0 lies strictly inside a kept domain, 0.0 itself is the requested start (a limit that is falsy as a number)
+    sub = [((0.0, s1) if lo < 0 < hi and s1 > 0 else (s0, s1)) for (s0, s1), (lo, hi) in zip(sub, doms)]
     rc = dict(case, sample_sizes=[list(ns)], params=[[0.0]] * pd)
     f = dict(feats, sample=list(ns), segment=True)
     try:
